@@ -13,6 +13,14 @@ namespace riddle
 
     RIDDLE_EXPORT token *lexer::next()
     {
+        token *tk = nullptr;
+        while (!tk) // comments and white spaces produce no token..
+            tk = scan();
+        return tk;
+    }
+
+    token *lexer::scan()
+    {
         switch (ch)
         {
         case '"':
@@ -49,7 +57,7 @@ namespace riddle
                     {
                     case '\r':
                     case '\n':
-                        return next();
+                        return nullptr; // nothing but a comment, so far..
                     case -1:
                         return mk_token(EOF_ID);
                     }
@@ -62,7 +70,7 @@ namespace riddle
                         if ((ch = next_char()) == '/')
                         {
                             ch = next_char();
-                            return next();
+                            return nullptr; // nothing but a comment, so far..
                         }
                         break; // the character following the '*' is examined again: it might be another '*'..
                     case -1:
@@ -540,7 +548,7 @@ namespace riddle
                 case -1:
                     return mk_token(EOF_ID);
                 default:
-                    return next();
+                    return nullptr; // nothing but white spaces, so far..
                 }
         case -1:
             return mk_token(EOF_ID);
